@@ -30,7 +30,18 @@ def run(tier: str, seed: int, rep: Report, model: Model) -> dict:
         w = rnd.choice(["args", "ret"])
         p = GC.perturb(rnd, base, where=w)
         if p:
-            cases.append(p[0])
+            c = p[0]
+            if rnd.random() < 0.35:
+                # trailing parameters get their (possibly violating) value as a declared default and the caller omits them:
+                # a default is validated before the body like a passed value
+                j = rnd.randrange(len(c["params"]))
+                for q in c["params"][j:]:
+                    if q["name"] in c["args"]:
+                        q["default"] = c["args"][q["name"]]
+                        if rnd.random() < 0.8:
+                            c["args"].pop(q["name"])
+                rep.streams["with_omitted_defaults"] = rep.streams.get("with_omitted_defaults", 0) + 1
+            cases.append(c)
             where.append(w)
     worker = ImplWorker("harness.ctxrun")
     try:
